@@ -3,6 +3,7 @@ import DicomModel.Model.Valid
 import DicomModel.Lemmas.Header
 import DicomModel.Lemmas.Writer
 import DicomModel.Props.C03
+import DicomModel.Model.Charset
 /-
 C04 — Encoded output is structurally valid DICOM with exact lengths and padding; every reported
 byte count equals the number of bytes written.
@@ -707,6 +708,69 @@ theorem no_change_witness_valid :
     ∃ bs, writeDataset .explicitLE .noChange witnessTree = .ok bs ∧
       Valid.validPS35 explicitLECfg bs = true := by
   refine ⟨_, rfl, ?_⟩
+  decide +kernel
+
+/-! ### text elements under any Specific Character Set (`encode_text_element` / `encode_texts_element`)
+
+The declared length and the padding follow the *encoded* bytes, whatever the codec does to the length of the
+text (a Latin-1 or Cyrillic page shortens non-ASCII text relative to UTF-8, UTF-8 may lengthen it): for EVERY
+codec environment, set in force and text element, the value field written is the encoded text, plus exactly
+one VR-specific padding byte when (and only when) that is odd; its length is even. -/
+
+/-- the encoded text of an element before padding: the codec of the set in force (the default repertoire for
+AE, AS, CS, DA, DS, DT, IS, TM, UI), components joined with the backslash byte -/
+def textBody (codec : Charset.Gen.Cs → Charset.Codec) (cur : Charset.Gen.Cs) (e : Charset.Elem) : Option (List Nat) :=
+  let c := if Charset.writerUsesDefault e.vr then codec .Default else codec cur
+  match e.form with
+  | .str => c.encode (e.vals.headD [])
+  | .strs => (Charset.mapM' c.encode e.vals).map Charset.joinBs
+
+open Charset in
+theorem writeElem_eq (codec : Gen.Cs → Codec) (cur : Gen.Cs) (e : Charset.Elem) :
+    writeElem codec cur e = (textBody codec cur e).map fun b =>
+      (⟨e.tag, e.vr, padEven e.vr b⟩, if e.tag = scsTag then switchTo cur e.vals.head? else cur) := by
+  obtain ⟨tag, vr, form, vals⟩ := e
+  cases form
+  · simp only [writeElem, textBody]
+    cases (if writerUsesDefault vr = true then codec .Default else codec cur).encode (vals.headD []) <;> rfl
+  · simp only [writeElem, textBody]
+    cases mapM' (if writerUsesDefault vr = true then codec .Default else codec cur).encode vals <;> rfl
+
+open Charset in
+theorem text_value_even (codec : Gen.Cs → Codec) (cur : Gen.Cs) (e : Charset.Elem) (w : Wire) (cur' : Gen.Cs)
+    (h : writeElem codec cur e = some (w, cur')) : w.bytes.length % 2 = 0 := by
+  rw [writeElem_eq] at h
+  cases hb : textBody codec cur e with
+  | none => simp [hb] at h
+  | some b =>
+    simp only [hb, Option.map, Option.some.injEq, Prod.mk.injEq] at h
+    obtain ⟨rfl, _⟩ := h
+    simp only [padEven]
+    split
+    · simp only [List.length_append, List.length_cons, List.length_nil]; omega
+    · omega
+
+open Charset in
+theorem text_value_padding (codec : Gen.Cs → Codec) (cur : Gen.Cs) (e : Charset.Elem) (w : Wire) (cur' : Gen.Cs)
+    (h : writeElem codec cur e = some (w, cur')) :
+    ∃ raw, textBody codec cur e = some raw ∧ w.tag = e.tag ∧ w.vr = e.vr ∧
+      (raw.length % 2 = 0 → w.bytes = raw) ∧
+      (raw.length % 2 = 1 → w.bytes = raw ++ [if e.vr = .UI then 0 else 32]) := by
+  rw [writeElem_eq] at h
+  cases hb : textBody codec cur e with
+  | none => simp [hb] at h
+  | some b =>
+    simp only [hb, Option.map, Option.some.injEq, Prod.mk.injEq] at h
+    obtain ⟨rfl, _⟩ := h
+    refine ⟨b, rfl, rfl, rfl, ?_, ?_⟩ <;> intro hl <;> simp [padEven, hl]
+
+/-- non-vacuity and the point of the statement: under ISO_IR 100 the PN "ã" (2 bytes of UTF-8) is ONE byte on
+the wire and is padded; "ãb" (3 bytes of UTF-8) is two bytes and is not (kernel evaluation over the dumped page) -/
+theorem latin1_padding_follows_encoded_length :
+    (Charset.writeElem (Charset.codecOf fun _ => ⟨fun _ => none, fun _ => []⟩) .IsoIr100
+        ⟨0x00100010, .PN, .strs, [[0xE3]]⟩).map (·.1.bytes) = some [0xE3, 32] ∧
+    (Charset.writeElem (Charset.codecOf fun _ => ⟨fun _ => none, fun _ => []⟩) .IsoIr100
+        ⟨0x00100010, .PN, .strs, [[0xE3, 98]]⟩).map (·.1.bytes) = some [0xE3, 98] := by
   decide +kernel
 
 end Dicom.C04
